@@ -125,6 +125,7 @@ VCheck(e) ==
      ELSE IF Rel("C14") /\ ([healthy |-> e.healthy, recoverable |-> e.recoverable] \notin outs) THEN R("C14", "recoverable_flag" \o cause, T)
      ELSE OK(T)
 
+MidWrite(e) == IF "midwrite" \in DOMAIN e THEN e.midwrite ELSE 0
 VRepair(e) ==
   LET maps == S.maps
       Mr == maps[1].M
@@ -138,6 +139,11 @@ VRepair(e) ==
      ELSE IF Rel("C14") /\ dec = "mustforce" /\ e.res # "mustforce" THEN
           (IF UnrecNewer(V, Mr) # {} THEN R("C14", "NoDiscardNewer", T) ELSE R("C14", "NoPickCompetitor", T))
      ELSE IF Rel("C14") /\ (e.res = "mustforce" /\ dec # "mustforce") THEN R("C14", "refused_without_cause", T)
+     \* midwrite: a second client's complete overwrite (version e.midwrite, registered in V) landed while the repairer's writes
+     \* were on the wire.  The repair may fail; whatever it reports, the newer contents are what the file holds afterwards
+     ELSE IF MidWrite(e) # 0 THEN
+          (IF Rel("C14") /\ e.res = "ok" /\ e.post.content # V[MidWrite(e)].content THEN R("C14", "NoDiscardNewer_concurrent_overwrite", T)
+           ELSE OK(T))
      ELSE IF Rel("C14") /\ (e.res # "ok" /\ e.post.changed) THEN R("C14", "failed_repair_changed_shares", T)
      ELSE IF Rel("C14") /\ (dec = "unsuccessful" /\ e.res # "unsuccessful") THEN R("C14", "unsuccessful_flag", T)
      ELSE IF Rel("C14") /\ (e.res = "unsuccessful" /\ dec # "unsuccessful") THEN R("C14", "unsuccessful_flag", T)
